@@ -62,7 +62,8 @@ Proof. exact call_trace. Qed.
 Print Assumptions C13_call_trace.
 
 (* good route + decodable payload + arguments the signature takes: the targeted method runs
-   exactly once, with the value decoded at its own declared message type *)
+   exactly once, with the value (token of all fields) that THIS call's payload decodes to, into a
+   fresh value of the method's own declared message type *)
 Theorem C13_invoked_once : forall es s route dec c cb b mt seen,
   f4_ser es s route dec cb = false ->
   expect_ser es s route dec c = VGood mt seen ->
@@ -71,6 +72,29 @@ Theorem C13_invoked_once : forall es s route dec c cb b mt seen,
     targets es route mt /\ decode dec (p_tid (msg_type mt)) = DOk v.
 Proof. exact invoked_once. Qed.
 Print Assumptions C13_invoked_once.
+
+(* frame: queries and calls leave no trace - whatever was called before, with whatever payloads,
+   every operation observes the same; and a good call after ANY history and ANY further calls
+   runs its target with the value THIS call's payload decodes to into a fresh value *)
+Theorem C13_call_frame : forall h cs o,
+  forallb is_query cs = true -> obs_at (h ++ cs) o = obs_at h o.
+Proof. exact call_frame. Qed.
+Print Assumptions C13_call_frame.
+
+Theorem C13_run_snoc : forall h o, run (h ++ [o]) = run h ++ [obs_at h o].
+Proof. exact run_snoc. Qed.
+Print Assumptions C13_run_snoc.
+
+Theorem C13_invoked_with_own_payload : forall h cs k s route bytes dec c cb b mt seen,
+  forallb is_query cs = true ->
+  f4_ser (ss_built (sfinal h k)) s route dec cb = false ->
+  expect_ser (ss_built (sfinal h k)) s route dec c = VGood mt seen ->
+  exists v, decode dec (p_tid (msg_type mt)) = DOk v /\
+    obs_at (h ++ cs) (OCallSer k s route bytes dec c cb b) =
+    BCall (EvInvoke (m_uid mt) (Some v) ::
+           (if cb && is_request mt then map EvComplete (owed b) else [])) false.
+Proof. exact invoked_with_own_payload. Qed.
+Print Assumptions C13_invoked_with_own_payload.
 
 (* every failure case: no method runs at all (with or without F4) *)
 Theorem C13_not_invoked_otherwise : forall es s route dec c cb b,
